@@ -376,7 +376,9 @@ impl<T: ?Sized, R: RawMutex> Mutex<T, R> {
 	/// Lock without a [`ThreadKey`]. It is undefined behavior to do this without
 	/// owning the [`ThreadKey`].
 	pub(crate) unsafe fn try_lock_no_key(&self) -> Option<MutexRef<'_, T, R>> {
-		self.raw_try_write().then_some(MutexRef(self, PhantomData))
+		// `then`, not `then_some`: an eagerly built MutexRef would be dropped when the
+		// attempt fails, and dropping it unlocks a mutex that somebody else holds
+		self.raw_try_write().then(|| MutexRef(self, PhantomData))
 	}
 
 	/// Consumes the [`MutexGuard`], and consequently unlocks its `Mutex`.
